@@ -105,3 +105,8 @@ register("C18", "exploration",
          "Bounded: acyclic_unroll output is acyclic, lint-clean, same outputs, inputs = original + one aux per cut node; for every input valuation and every brute-force fixed point of the cyclic circuit the unrolled outputs equal the stable values.",
          "oracle = brute-force fixed points (vlib.oracle); aux input <-> feedback node by the name c0_aux_in_<f>; scope in evidence.bound",
          explanation="bounded stand-in of the acyclic_unroll contract")
+
+register("C19", "exploration",
+         "Bounded: ~70 call recipes covering every public function of tx/props/sat/io writers/lint and the read-only Circuit methods (normal and raising argument shapes) are run on random circuits; deep snapshots before/after, object-identity checks on graph/attribute/adjacency dicts and registry, and an edit battery in both directions.",
+         "snapshot = nodes+attributes+edges+name+registry (vlib.circ.snapshot); scope in evidence.bound",
+         explanation="bounded stand-in of the frame/no-alias contract")
